@@ -299,10 +299,12 @@ func (gs GenesisState) ValidateOperatorUSDValues(operators map[string]struct{}, 
 			avsUSDValue = DecValueField{Amount: sdk.ZeroDec()}
 		}
 
-		if operatorUSDValue.OptedUSDValue.TotalUSDValue.GT(avsUSDValue.Amount) {
+		// the value of an AVS is the sum over its active operators (UpdateVotingPower): an
+		// operator below the minimum self delegation has a total value that isn't part of it
+		if operatorUSDValue.OptedUSDValue.ActiveUSDValue.GT(avsUSDValue.Amount) {
 			return errorsmod.Wrapf(
 				ErrInvalidGenesisData,
-				"the total USD value of operator shouldn't be greater than the total USD value of the AVS, avsUSDValue: %s, operatorUSDValue: %+v",
+				"the active USD value of operator shouldn't be greater than the total USD value of the AVS, avsUSDValue: %s, operatorUSDValue: %+v",
 				avsUSDValue.Amount.String(), operatorUSDValue,
 			)
 		}
